@@ -20,7 +20,7 @@ import (
 
 func init() { shapes.Light = true }
 
-const rule = "(a) the shape enumeration of C09 (reduced: depth 2 quick / 3 thorough, all 64 override maps at depth 1) with the crypto oracle: every value the filter encrypted is stripped of its prefix, base64url-decoded, unmarshalled as BlobInfo and decrypted with the wrapper in force, every HMAC is recomputed with x/crypto hkdf + crypto/hmac under the key/salt/info in force. (b) key contexts: values {empty, ascii, non-UTF-8, 200 bytes} x {string, []byte} x {encrypt, hmac} x filter salt/info {nil, set} x event {plain, EventWrapperInfo with id only / id+salt / id+info / id+both / empty id; the EventWrapperInfo payload also carries the protected fields inside a struct value, a pointer, slices of structs and of pointers, nested pointers and string slices}: per-event wrapper (derivation checked for determinism and for differing between ids), per-event salt/info precedence, equal inputs give equal digests. (c) BFS over all histories up to depth 3 (4 thorough) of {Rotate(any non-empty subset of wrapper/salt/info), rotation payload (same subsets), event, EventWrapperInfo event}: every event after a rotation verifies under the model's new material. (d) Rotate || Process || Process, all schedules within the preemption bound under the race detector: every protected value verifies wholly under the old or the new key."
+const rule = "(a) the shape enumeration of C09 (reduced: depth 2 quick / 3 thorough, all 64 override maps at depth 1) with the crypto oracle: every value the filter encrypted is stripped of its prefix, base64url-decoded, unmarshalled as BlobInfo and decrypted with the wrapper in force, every HMAC is recomputed with x/crypto hkdf + crypto/hmac under the key/salt/info in force. (b) key contexts: values {empty, ascii, non-UTF-8, 200 bytes} x {string, []byte} x {encrypt, hmac} x filter salt/info {nil, set} x event {plain, EventWrapperInfo with id only / id+salt / id+info / id+both / empty id; the EventWrapperInfo payload also carries the protected fields inside a struct value, a pointer, slices of structs and of pointers, nested pointers and string slices, and a second payload kind that is an EventWrapperInfo and a Taggable struct at once}: per-event wrapper (derivation checked for determinism and for differing between ids), per-event salt/info precedence, equal inputs give equal digests. (c) BFS over all histories up to depth 3 (4 thorough) of {Rotate(any non-empty subset of wrapper/salt/info), rotation payload (same subsets), event, EventWrapperInfo event}: every event after a rotation verifies under the model's new material. (d) Rotate || Process || Process, all schedules within the preemption bound under the race detector: every protected value verifies wholly under the old or the new key."
 
 var assumptions = []string{
 	"AES-GCM, HKDF and HMAC from the standard / x/crypto libraries are the independent oracles",
@@ -45,6 +45,25 @@ type ewPayload struct {
 	PSlice []*ewNest
 	Strs   []string `class:"sensitive,encrypt"`
 	HStrs  []string `class:"secret,hmac-sha256"`
+}
+
+// ewTagged names an event id AND is a Taggable struct: class-tagged fields next to a pointer-tagged map.
+type ewTagged struct {
+	id         string
+	salt, info []byte
+	Name       string `class:"sensitive,encrypt"`
+	HN         string `class:"secret,hmac-sha256"`
+	Attrs      map[string]interface{}
+}
+
+func (p *ewTagged) EventId() string  { return p.id }
+func (p *ewTagged) HmacSalt() []byte { return p.salt }
+func (p *ewTagged) HmacInfo() []byte { return p.info }
+func (p *ewTagged) Tags() ([]encrypt.PointerTag, error) {
+	return []encrypt.PointerTag{
+		{Pointer: "/Attrs/k", Classification: encrypt.SensitiveClassification, Filter: encrypt.EncryptOperation},
+		{Pointer: "/Attrs/h", Classification: encrypt.SecretClassification, Filter: encrypt.HmacSha256Operation},
+	}, nil
 }
 
 type ewNest struct {
@@ -119,6 +138,10 @@ func verify(out interface{}, val string, base keyMaterial, evID string, evSalt, 
 	var b, hb []byte
 	moreEnc, moreMac := map[string]string{}, map[string]string{}
 	switch p := out.(type) {
+	case *ewTagged:
+		k, _ := p.Attrs["k"].(string)
+		h, _ := p.Attrs["h"].(string)
+		s, b, hs, hb, hs2 = p.Name, []byte(k), p.HN, []byte(h), p.HN
 	case *ewPayload:
 		s, b, hs, hb, hs2 = p.S, p.B, p.HS, p.HB, p.HS2
 		moreEnc, moreMac = p.nested()
@@ -250,6 +273,16 @@ func keyContexts() *hk.Result {
 						continue
 					}
 					if !add(name, verify(out.Payload, val, km, ev.id, ev.salt, ev.info)) {
+						return res
+					}
+					// the same event id on a payload that is also a Taggable struct
+					tp := &ewTagged{id: ev.id, salt: ev.salt, info: ev.info, Name: val, HN: val, Attrs: map[string]interface{}{"k": val, "h": val}}
+					out, err = mk().Process(ctx, &el.Event{Type: "t", Payload: tp})
+					if err != nil || out == nil {
+						add(name+" taggable", fmt.Sprintf("Process failed: %v", err))
+						continue
+					}
+					if !add(name+" taggable", verify(out.Payload, val, km, ev.id, ev.salt, ev.info)) {
 						return res
 					}
 				}
